@@ -247,6 +247,7 @@ pub fn generate_query_iter_destroy(''', ['C05']),
     ('gen_archetype_id_off_by_one', GW, 'let ARCHETYPE_ID = archetype_data.id;', 'let ARCHETYPE_ID = archetype_data.id.saturating_sub(1);', ['C15']),
     ('gen_component_id_flipped', GW, '.map(|component| component.id)', '.map(|component| component.id ^ 1)', ['C15']),
     ('gen_event_iter_skips_archetype', GW, 'next.push(quote!(self.which += 1));', 'next.push(quote!(self.which += 2));', ['C17']),
+    ('gen_event_size_hint_skips_current', GW, 'if self.which <= #index as ArchetypeId  {', 'if self.which < #index as ArchetypeId  {', ['C17']),
     ('gen_iter_destroyed_lists_created', GW, '#(#iter: self.#archetype.data.destroyed().iter(),)*', '#(#iter: self.#archetype.data.created().iter(),)*', ['C17']),
     ('gen_iter_created_starts_at_second', GW, '''            fn iter_created(&self) -> impl Iterator<Item = &EntityAny> {
                 EcsEventIterator {
